@@ -114,12 +114,21 @@ def run(prop, tier, seed):
     # QSBR part
     qout = os.path.join(d, "qsbr_fault.ndjson")
     p = subprocess.run([qexe], capture_output=True, text=True, timeout=600)
+    qtxt = p.stdout
+    if not qtxt.endswith("\n"):          # a driver that died may leave a partial last line
+        qtxt = qtxt[:qtxt.rfind("\n") + 1]
     with open(qout, "w") as f:
-        f.write(p.stdout)
+        f.write(qtxt)
     qfaults = 0
     if p.returncode != 0:
         rep.violation("qsbr_fault_driver died rc=%s: %s" % (p.returncode, p.stderr[-500:]), {})
-    acc, matched, r = vlib.validate_trace("QsbrFaultTrace", "cfg/QsbrFaultTrace/trace.cfg", qout)
+    try:
+        acc, matched, r = vlib.validate_trace("QsbrFaultTrace", "cfg/QsbrFaultTrace/trace.cfg", qout)
+    except vlib.CheckBroken:
+        if p.returncode == 0:
+            raise
+        # the death of the driver is already reported; what it managed to write need not be a well-formed trace
+        acc, matched, r = True, 0, vlib.TlcResult()
     m = re.search(r'"QFAULTS", (\d+)', r.out)
     qfaults = int(m.group(1)) if m else 0
     qstates = r.distinct
